@@ -45,6 +45,23 @@ func (t *Transpose) Init(n *onnx.NodeProto) error {
 
 // Apply applies the transpose operator.
 func (t *Transpose) Apply(inputs []tensor.Tensor) ([]tensor.Tensor, error) {
+	// The perm attribute must be a permutation of the axes of the input. Without
+	// perm the axes are reversed.
+	rank := len(inputs[0].Shape())
+	if len(t.perm) != 0 && len(t.perm) != rank {
+		return nil, ops.ErrInvalidAttribute("perm", t)
+	}
+
+	seen := make([]bool, rank)
+
+	for _, axis := range t.perm {
+		if axis < 0 || axis >= rank || seen[axis] {
+			return nil, ops.ErrInvalidAttribute("perm", t)
+		}
+
+		seen[axis] = true
+	}
+
 	out, err := tensor.Transpose(inputs[0], t.perm...)
 	if err != nil {
 		return nil, err
